@@ -1,11 +1,153 @@
 (* Props/C05.v -- property C05 stated on the model of stix2/versioning.py
-   (Model/Versioning.v); proofs in Proofs/Versioning*.v.                      *)
-From Coq Require Import ZArith List String.
-From V Require Import Base.UString Model.Versioning Spec.VersioningSpec Gen.VersioningTables Proofs.VersioningFacts.
-Import ListNotations.
-Open Scope Z_scope.
+   (Model/Versioning.v); proofs in Proofs/Versioning*.v.
 
-(* the tables regenerated from /repo agree with the frozen specification *)
-Theorem tables_unmod : forallb (fun k => mem k live_unmod) spec_unmod = true.
+   T   : the tables the code reads (any; `live_tables` is what the translator read from /repo)
+   nm  : what parse_into_datetime does with naive datetimes (both variants)
+   c   : object of a v2.0 / v2.1 class, plain dict, or not a mapping
+   d   : the object's properties as an insertion-ordered association list (keys distinct, as in
+         a Python dict); ch : the keyword arguments of new_version (distinct; None removes)
+   now : the clock reading, ANY integer number of microseconds
+   ser_value nm v x : the UTC instant an object of spec version v holds and serializes for the
+         value x (2.0: truncated to milliseconds, 2.1: every microsecond), None if x is no timestamp
+   later nm v d d' : both version times serialize, and that of d' is strictly later.          *)
+From Coq Require Import String ZArith List Bool Sorting.Sorted.
+From V Require Import Base.UString Base.Json Model.Timestamp Model.Versioning Spec.VersioningSpec
+  Gen.VersioningTables Proofs.VersioningFacts Proofs.VersioningProofs Proofs.VersioningChain.
+Import ListNotations.
+Open Scope bool_scope. Open Scope list_scope. Open Scope Z_scope.
+
+(* ---- the tables regenerated from /repo against the frozen specification ---- *)
+Theorem tables_unmod : subset spec_unmod live_unmod = true.
 Proof. vm_compute. reflexivity. Qed.
 Print Assumptions tables_unmod.
+
+Theorem tables_verprops : seteq live_verprops spec_verprops = true.
+Proof. vm_compute. reflexivity. Qed.
+Print Assumptions tables_verprops.
+
+Theorem tables_registry : reg_agree live_registry spec_registry && reg_agree spec_registry live_registry = true.
+Proof. vm_compute. reflexivity. Qed.
+Print Assumptions tables_registry.
+
+Theorem tables_sco_contributing : sco_agree live_sco21 spec_sco21 && sco_agree spec_sco21 live_sco21 = true.
+Proof. vm_compute. reflexivity. Qed.
+Print Assumptions tables_sco_contributing.
+
+Theorem tables_header_unmodifiable : tables_ok live_tables.
+Proof. split; vm_compute; reflexivity. Qed.
+Print Assumptions tables_header_unmodifiable.
+
+(* ---- the arithmetic of _fudge_modified (DESIGN A.1): every clock reading ---- *)
+Theorem fudge_strict_20 : forall old now, ser20 (fudge20 (ser20 old) now) > ser20 old.
+Proof. exact fudge20_strict. Qed.
+Print Assumptions fudge_strict_20.
+
+Theorem fudge_strict_21 : forall old now, ser21 (fudge21 (ser21 old) now) > ser21 old.
+Proof. exact fudge21_strict. Qed.
+Print Assumptions fudge_strict_21.
+
+(* the 2.1 rule at the 2.0 precision would not be strict: the two branches are both needed *)
+Theorem fudge_rules_not_interchangeable : exists old now, ~ ser20 (fudge21 (ser20 old) now) > ser20 old.
+Proof. exact fudge21_rule_at_ms_precision_not_strict. Qed.
+Print Assumptions fudge_rules_not_interchangeable.
+
+(* ---- a new version is strictly newer after serialization, whatever the clock reads ---- *)
+Theorem nv_strict : forall T nm c d ch now d' v, good_ver v -> NoDup (keys d) -> NoDup (keys ch) ->
+  check_versionable T c d = Ok v -> new_version T nm c d ch now = Ok d' -> later nm v d d'.
+Proof. exact nv_strict_lemma. Qed.
+Print Assumptions nv_strict.
+
+(* a caller-supplied modified time is accepted only if strictly later after serialization, and is applied *)
+Theorem supplied_modified_strict : forall T nm c d ch now d' v s, good_ver v -> NoDup (keys d) -> NoDup (keys ch) ->
+  check_versionable T c d = Ok v -> plookup kmod ch = Some s -> new_version T nm c d ch now = Ok d' ->
+  exists a b, ser_value nm v (version_time d) = Some a /\ ser_value nm v (Some s) = Some b /\
+              ser_value nm v (version_time d') = Some b /\ a < b.
+Proof. exact supplied_modified_lemma. Qed.
+Print Assumptions supplied_modified_strict.
+
+(* ---- identity: type, id, created and creator are kept ---- *)
+Theorem nv_identity : forall nm c d ch now d' k, NoDup (keys d) -> NoDup (keys ch) ->
+  new_version live_tables nm c d ch now = Ok d' -> In k spec_unmod -> pget k d' = pget k d.
+Proof. intros nm c d ch now d' k. apply nv_identity_spec_lemma. exact tables_unmod. Qed.
+Print Assumptions nv_identity.
+
+(* ---- exactly the requested changes; None removes; nothing else differs except modified ---- *)
+Theorem nv_exact : forall T nm c d ch now d', NoDup (keys d) -> NoDup (keys ch) ->
+  new_version T nm c d ch now = Ok d' ->
+  forall k, ustr_eqb k kmod = false -> pget k d' = requested ch d k.
+Proof. exact nv_exact_lemma. Qed.
+Print Assumptions nv_exact.
+
+(* ---- refusals ---- *)
+Theorem nv_unmodifiable : forall T nm c d ch now k, In k (t_unmod T) -> has_key k ch = true ->
+  forall d', new_version T nm c d ch now <> Ok d'.
+Proof. exact nv_unmodifiable_lemma. Qed.
+Print Assumptions nv_unmodifiable.
+
+Theorem nv_sco_locked : forall T nm c d ch now locked k, sco_locked T d = Ok locked -> In k locked -> has_key k ch = true ->
+  forall d', new_version T nm c d ch now <> Ok d'.
+Proof. exact nv_sco_locked_lemma. Qed.
+Print Assumptions nv_sco_locked.
+
+(* ... where the locked properties of a 2.1 observable with a version-5 UUID are its id-contributing ones *)
+Theorem sco_locked_when_deterministic : forall T d ty id contrib,
+  detect T d = Ok V21 -> plookup (u "type") d = Some (PJ (JStr ty)) -> sco_lookup ty (t_sco21 T) = Some contrib ->
+  plookup (u "id") d = Some (PJ (JStr id)) -> uuid_shape 0 (last36 id) = true -> is_uuid5 (last36 id) = true ->
+  sco_locked T d = Ok contrib.
+Proof. exact sco_locked_uuid5. Qed.
+Print Assumptions sco_locked_when_deterministic.
+
+(* a revoked object can be neither versioned nor revoked again, by any operation *)
+Theorem revoked_final : forall T nm c d o, revoked_flag d = true -> forall d', apply_op T nm c d o <> New d'.
+Proof. exact revoked_final_lemma. Qed.
+Print Assumptions revoked_final.
+
+Theorem revoke_revokes : forall T nm c d now d', NoDup (keys d) -> revoke T nm c d now = Ok d' -> revoked_flag d' = true.
+Proof. exact revoke_sets_lemma. Qed.
+Print Assumptions revoke_revokes.
+
+Theorem revoked_chain_ends : forall T nm ops c d, revoked_flag d = true -> new_versions T nm c d ops = [].
+Proof. exact revoked_chain_lemma. Qed.
+Print Assumptions revoked_chain_ends.
+
+(* ---- along any chain of new_version / revoke / marking operations, with any clock readings,
+   the serialized modified times strictly increase (induction over the history) ---- *)
+Theorem chain_increasing : forall T nm ops c d v, good_ver v -> tables_ok T ->
+  get_stix_version T c d = Ok v -> NoDup (keys d) -> header_ok d -> Forall op_ok ops ->
+  StronglySorted (later nm v) (d :: new_versions T nm c d ops).
+Proof. exact chain_increasing_lemma. Qed.
+Print Assumptions chain_increasing.
+
+(* ---- the hypotheses are satisfiable; the model computes ---- *)
+Definition ex_identity : pdict :=
+  [(u "type", PJ (JStr (u "identity"))); (u "id", PJ (JStr (u "identity--311b2d2d-f010-4473-83ec-1edf84858f4c")));
+   (u "created", PJ (JStr (u "2020-01-01T00:00:00.000Z"))); (u "modified", PJ (JStr (u "2020-01-01T00:00:00.001Z")));
+   (u "name", PJ (JStr (u "x"))); (u "description", PJ (JStr (u "d"))); (u "revoked", PJ (JBool false))].
+Definition t2020 : Z := 63713433600000000.
+
+(* clock 999 us after a millisecond-precision modified time: pushed to the next millisecond *)
+Example ex_v20_push :
+  match new_version live_tables NaiveUtc (CObject V20) ex_identity [(u "description", PJ JNull)] (t2020 + 1999) with
+  | Ok d' => plookup kmod d' = Some (PDt (t2020 + 2000) (Some 0)) /\ has_key (u "description") d' = false
+  | Raise _ => False
+  end.
+Proof. vm_compute. split; reflexivity. Qed.
+
+Example ex_v21_equal_clock :
+  match new_version live_tables NaiveUtc CDict ((u "spec_version", PJ (JStr (u "2.1"))) :: ex_identity) [] (t2020 + 1000) with
+  | Ok d' => plookup kmod d' = Some (PDt (t2020 + 1001) (Some 0))
+  | Raise _ => False
+  end.
+Proof. vm_compute. reflexivity. Qed.
+
+Example ex_unmodifiable :
+  new_version live_tables NaiveUtc (CObject V21) ex_identity [(u "id", PJ (JStr (u "identity--x")))] t2020
+  = Raise "UnmodifiablePropertyError"%string.
+Proof. vm_compute. reflexivity. Qed.
+
+Example ex_good_chain_hyps : good_ver V20 /\ get_stix_version live_tables CDict ex_identity = Ok V20 /\ NoDup (keys ex_identity).
+Proof.
+  split; [now left|]. split; [vm_compute; reflexivity|].
+  unfold keys. cbn [map fst ex_identity]. repeat (constructor; [cbn; intros H; repeat (destruct H as [H|H]; [discriminate H|]); exact H|]).
+  constructor.
+Qed.
